@@ -30,6 +30,7 @@ def run(ctx: Ctx):
     late_translations(ctx)
     element_id(ctx)
     unknown_refs(ctx)
+    element_transform_keys(ctx)
 
 
 def _model(with_insertions: bool, items=None) -> Dict[str, Any]:
@@ -385,3 +386,72 @@ def unknown_refs(ctx: Ctx):
         ctx.violated("unknown-ignored", where, f["unguarded_pop"], "pop under `id in map`", "an explicit-order id that matches nothing would raise KeyError")
     else:
         ctx.ob("unknown-ignored", where, f"pop guarded by membership: {f['listed_pop_guarded']}", "an explicit-order id that matches nothing (incl. None) is ignored", True if f["listed_pop_guarded"] else None)
+
+
+# --------------------------------------------------------------------------- element-transform keys, as a model
+def element_transform_keys(ctx: Ctx):
+    """DECTAB over `_replaced_element_transforms` (with the cascade it calls): an `elements` transform dict whose keys
+    spell items as alias, sub-variable id or element id - uniformly or MIXED in one dict - is rewritten to the aliases
+    of the same items; keys that match nothing are dropped; a dict flagged `key: alias` is left alone."""
+    ci = ctx.repo.cls(DIM, "_ElementIdShim")
+    m = ctx.repo.lookup(ci, "_replaced_element_transforms")
+    where = f"{DIM}::_ElementIdShim._replaced_element_transforms"
+    if m is None:
+        ctx.undecided("slots.keys-model", where, "member not found", "")
+        return
+    body = expand(ctx.repo, ci, "_replaced_element_transforms", bind={"element_transforms": ast.Name(id="element_transforms", ctx=ast.Load())}, stop=lambda mm: mm.name in ("translate_element_id", "_subvar_aliases", "_subvar_ids", "_raw_element_ids", "_has_mr_insertion", "_dimension_dict"))
+    cascade = SUMMARIZER.summarize(ctx.repo.lookup(ci, "translate_element_id").node)
+    model = _model(False, _SHIFTED["items"])
+    items = model["items"]
+    T = {"hide": True}
+
+    def spell(k, kind):
+        alias, rid, sid, _ = items[k]
+        return {"alias": alias, "subvar": sid, "int": rid, "str": str(rid)}[kind]
+
+    cases = []
+    for kinds in (("alias", "alias"), ("subvar", "subvar"), ("int", "int"), ("str", "str"), ("alias", "subvar"), ("alias", "int"), ("alias", "str"), ("subvar", "str"), ("subvar", "alias")):
+        d = {spell(0, kinds[0]): T, spell(2, kinds[1]): T}
+        cases.append((f"item 0 as {kinds[0]}, item 2 as {kinds[1]}", d, {items[0][0]: T, items[2][0]: T}))
+    cases.append(("stale key next to an alias", {"nope": T, items[1][0]: T}, {items[1][0]: T}))
+    cases.append(("flagged key: alias", {"key": "alias", items[1][0]: T}, {"key": "alias", items[1][0]: T}))
+    bad, n = [], 0
+    for label, d, want in cases:
+        def atoms(x, d=d):
+            t = u(x)
+            if t == "element_transforms":
+                return d
+            if t == "self._subvar_aliases":
+                return tuple(a for a, *_ in items)
+            if t == "self._subvar_ids":
+                return tuple(s_ for _a, _r, s_, _i in items)
+            if t == "self._raw_element_ids":
+                return tuple(r for _a, r, *_ in items)
+            if t == "self.dimension_type":
+                return "MR_SUBVAR"
+            if isinstance(x, ast.Attribute) and isinstance(x.value, ast.Name) and x.value.id == "DT":
+                from ..typetab import dt_value
+
+                return dt_value(ctx.repo, x.attr)
+            raise KeyError
+
+        class _I(ModelInterp):
+            def _call(self, c, it):
+                if isinstance(c.func, ast.Attribute) and c.func.attr == "translate_element_id" and len(c.args) == 1:
+                    return _eval_translate(ctx, cascade, model, self.ev(c.args[0]), False)
+                return super()._call(c, it)
+
+        try:
+            got = _I(atoms).ev(body)
+        except Raises as r:
+            bad.append(f"{label}: raises {r.etype}")
+            continue
+        except DTop as t:
+            ctx.undecided("slots.keys-model", where, "DECTAB: " + str(t), "every spelling of a key -> the item's alias")
+            return
+        n += 1
+        if got != want:
+            bad.append(f"{label}: {sorted(map(str, got)) if isinstance(got, dict) else got!r} (specified {sorted(map(str, want))})")
+    ctx.count("element-transform key cases", n)
+    ctx.ob("slots.keys-model", where, bad[:3] or f"{n} dicts (uniform and mixed spellings, stale and flagged keys)", "every key -> alias of the same item; unknown keys dropped; a flagged dict unchanged", not bad,
+           "hide / rename apply to the same item whichever way - and in whichever company - its key is spelled")
